@@ -204,7 +204,7 @@ func (g *gen) notification() *NotiJ {
 	case 4: // empty
 		return &NotiJ{TS: g.ts(), Prefix: g.prefix(nil)}
 	case 5: // metadata written from outside
-		k := []string{"sync", "connected", "connectedAddress", "foo", "targetLeaves"}[g.r.Intn(5)]
+		k := []string{"sync", "connected", "connectedAddress", "foo"}[g.r.Intn(4)]
 		var v *ValJ
 		switch k {
 		case "sync", "connected":
@@ -214,8 +214,6 @@ func (g *gen) notification() *NotiJ {
 			}
 		case "connectedAddress":
 			v = sval("x")
-		case "targetLeaves":
-			v = ival(7)
 		default:
 			v = g.val()
 		}
